@@ -136,6 +136,10 @@ func c09http(c *run.Ctx) {
 			if t.Kind == "access" {
 				// the inspected token itself as bearer credential: never answered
 				tokCallers = append(append([]caller(nil), callers...), caller{"bearer-is-the-inspected-token", world.Auth{}, t.Value, 0})
+				if bare := strings.TrimPrefix(t.Value, "ory_at_"); bare != t.Value {
+					// the same token in its other accepted spelling (opaque tokens are honoured with and without their prefix)
+					tokCallers = append(tokCallers, caller{"bearer-is-the-inspected-token-spelled-without-prefix", world.Auth{}, bare, 0})
+				}
 			}
 			for ci, cl := range tokCallers {
 				// full cross product for a few tokens, a diagonal for the rest
